@@ -1,8 +1,136 @@
-import ErdosVerif.Driver.Util
-namespace ErdosVerif.Driver.TaskGraph
-open Lean ErdosVerif.Driver
+import ErdosVerif.Driver.Ledger
+import ErdosVerif.Model.TaskGraph
+/-!
+Suite "taskgraph": histories of direct calls on one task graph (C06, C07, C18).
 
-/-- Suite handler: one JSON case in, one JSON reply out (stub until the suite is built). -/
-def handle (_j : Json) : Json := Json.mkObj [("protocol_error", Json.str "suite-not-built")]
+case:  {"suite":"taskgraph","graph":{"name":…,"tasks":[task…],"children":[[…]…],"parents":[[…]…],"topo":[…]},
+        "ops":[op…], "tape":[draw…]}
+reply: {"obs":[{"out":"ok"|"<ExceptionClass>","ret":…,"tasks":[snapshot…]}…]}
+-/
+namespace ErdosVerif.Driver.TaskGraph
+open Lean ErdosVerif.Driver ErdosVerif.Model
+
+def parseNatList (j : Json) : Except String (List Nat) := do
+  mapM' (fun e => e.getNat?) (← j.getArr?).toList
+
+def parseTask (j : Json) : Except String TaskS := do
+  let strats ← mapM' Ledger.parseStrat (← fldArr j "strategies")
+  return { name := ← fldStr j "name", conditional := ← fldBool j "conditional", terminal := ← fldBool j "terminal",
+           prob := ← fldInt j "prob", strategies := strats, profile := ← fldNat j "profile",
+           release := ← fldInt j "release", intendedRelease := ← fldInt j "release", deadline := ← fldInt j "deadline" }
+
+def parseGraph (j : Json) : Except String GraphS := do
+  let tasks ← mapM' parseTask (← fldArr j "tasks")
+  let children ← mapM' parseNatList (← fldArr j "children")
+  let parents ← mapM' parseNatList (← fldArr j "parents")
+  return ⟨← fldStr j "name", tasks.toArray, children.toArray, parents.toArray, ← parseNatList (← fld j "topo")⟩
+
+def parseDraw (j : Json) : Except String Draw := do
+  match ← fldStr j "k" with
+  | "choices" => return .choices (← fldNat j "v")
+  | "choice" => return .choice (← fldNat j "v")
+  | "coin" => return .coin (← fldBool j "v")
+  | "fuzz" => return .fuzz (← fldInt j "v")
+  | k => throw s!"bad draw {k}"
+
+def parsePolicy : String → Except String BranchPolicy
+  | "RANDOM" => pure .random | "WORST_CASE" => pure .worstCase | "BEST_CASE" => pure .bestCase
+  | "MAXIMUM" => pure .maximum | "ALL" => pure .all
+  | p => throw s!"bad policy {p}"
+
+def jTask (t : TaskS) : Json :=
+  Json.arr #[Json.str t.state.name, Json.str t.pre.name, jInt t.release, jInt t.deadline, jInt t.start,
+    jInt t.completion, jOptInt t.remaining, jInt t.lastStep, jInt t.prob, jOptInt t.schedTime,
+    jOptNat t.pool, jOptInt t.cancelTime, jOptInt (t.placement.bind (·.time))]
+
+def jTasks (g : GraphS) : Json := Json.arr (g.tasks.map jTask)
+
+def errName (e : SErr) : Json := Json.str e.name
+
+/-- One operation: returns (graph, tape, out, ret). -/
+def step (g : GraphS) (tape : List Draw) (j : Json) : Except String (GraphS × List Draw × Json × Json) := do
+  let op ← fldStr j "op"
+  let onTask (n : Nat) (f : TaskS → TaskS.TRes) : Except String (GraphS × List Draw × Json × Json) :=
+    match g.task? n with
+    | none => throw s!"bad task {n}"
+    | some t =>
+      let (t', e) := f t
+      pure (g.setTask n t', tape, match e with | none => Json.str "ok" | some e => errName e, Json.null)
+  match op with
+  | "release" =>
+    let time := match fldOpt j "time" with | none => none | some v => v.getInt?.toOption
+    onTask (← fldNat j "n") (·.doRelease time)
+  | "schedule" =>
+    let n ← fldNat j "n"
+    let strat ← match fldOpt j "s" with | none => pure none | some v => some <$> Ledger.parseStrat v
+    let p : PlacementS := { kind := .place, task := ⟨0, n⟩, time := some (← fldInt j "ptime"),
+                            pool := some (← fldNat j "pool"), strat := strat }
+    onTask n (·.doSchedule (← fldInt j "time") p)
+  | "unschedule" => onTask (← fldNat j "n") (·.doUnschedule)
+  | "start" => onTask (← fldNat j "n") (·.doStart (← fldInt j "time") (← fldInt j "fuzzed"))
+  | "finish" =>
+    let time := match fldOpt j "time" with | none => none | some v => v.getInt?.toOption
+    onTask (← fldNat j "n") (·.doFinish time)
+  | "task_cancel" => onTask (← fldNat j "n") (·.doCancel (← fldInt j "time"))
+  | "preempt" => onTask (← fldNat j "n") (·.doPreempt)
+  | "step" =>
+    let n ← fldNat j "n"
+    match g.task? n with
+    | none => throw s!"bad task {n}"
+    | some t =>
+      let (t', fin) := t.doStep (← fldInt j "now") (← fldInt j "dt")
+      pure (g.setTask n t', tape, Json.str "ok", Json.bool fin)
+  | "remaining" =>
+    let n ← fldNat j "n"
+    match g.task? n with
+    | none => throw s!"bad task {n}"
+    | some t =>
+      match t.remainingTime with
+      | .ok r => pure (g, tape, Json.str "ok", jInt r)
+      | .error e =>
+        if t.remaining.isNone && (t.state == .running || t.state == .preempted || t.state == .evicted || t.state == .scheduled)
+        then pure (g, tape, Json.str "ok", Json.null)   -- the bare property read returns None
+        else pure (g, tape, errName e, Json.null)
+  | "cancel" =>
+    let r := g.cancel (← fldNat j "n") (← fldInt j "time")
+    pure (r.g, tape, match r.err with | none => Json.str "ok" | some e => errName e,
+          match r.err with | none => jList jNat r.cancelled | some _ => Json.null)
+  | "notify" =>
+    let r := g.notifyCompletion (← fldNat j "n") (← fldInt j "time") tape
+    match r.err with
+    | none =>
+      pure (r.g, r.tape, Json.str "ok", Json.mkObj [("released", jList jNat r.released), ("cancelled", jList jNat r.cancelled)])
+    | some e => pure (r.g, r.tape, errName e, Json.null)
+  | "releasable" => pure (g, tape, Json.str "ok", jList jNat g.getReleasable)
+  | "schedulable" =>
+    let pol ← parsePolicy (← fldStr j "policy")
+    match (g.getSchedulable (← fldInt j "time") (← fldInt j "lookahead") (← fldBool j "retract") pol
+            (← fldBool j "rtg")).runTape tape with
+    | (.ok l, tape') => pure (g, tape', Json.str "ok", jList jNat l)
+    | (.error e, tape') => pure (g, tape', errName e, Json.null)
+  | "resolve" =>
+    let pol ← parsePolicy (← fldStr j "policy")
+    match (g.resolveConditional (← fldNat j "n") pol).runTape tape with
+    | (.ok l, tape') => pure (g, tape', Json.str "ok", jList jNat l)
+    | (.error e, tape') => pure (g, tape', errName e, Json.null)
+  | "ready" => pure (g, tape, Json.str "ok", Json.bool (g.isReadyToRun (← fldNat j "n")))
+  | "graph_status" =>
+    pure (g, tape, Json.str "ok", Json.mkObj [("complete", Json.bool g.isComplete), ("cancelled", Json.bool g.isCancelled),
+      ("deadline", jInt g.deadline), ("release", jInt g.releaseTime)])
+  | "dfs" => pure (g, tape, Json.str "ok", jList jNat (g.dfsFrom (← fldNat j "n")))
+  | o => throw s!"bad op {o}"
+
+def runCase (j : Json) : Except String Json := do
+  let mut g ← parseGraph (← fld j "graph")
+  let mut tape ← mapM' parseDraw (← fldArr j "tape")
+  let mut obs : Array Json := #[]
+  for oj in (← fldArr j "ops") do
+    let (g', tape', out, ret) ← step g tape oj
+    g := g'
+    tape := tape'
+    obs := obs.push (Json.mkObj [("out", out), ("ret", ret), ("tasks", jTasks g)])
+  return Json.mkObj [("obs", Json.arr obs), ("tape_left", jNat tape.length)]
+
+def handle (j : Json) : Json := guardE (runCase j)
 
 end ErdosVerif.Driver.TaskGraph
